@@ -148,7 +148,7 @@ class Repo:
                 self.ops.append("ff-merge %s" % other)
                 return True
         ct, at = self.rand_time(), self.rand_time()
-        self.git("merge", "-q", "--no-ff", "-m", "merge %s" % other, "refs/heads/" + other, env={"GIT_COMMITTER_DATE": self.stamp(ct), "GIT_AUTHOR_DATE": self.stamp(at)})
+        self.git("merge", "-q", "--no-ff", "--allow-unrelated-histories", "-m", "merge %s" % other, "refs/heads/" + other, env={"GIT_COMMITTER_DATE": self.stamp(ct), "GIT_AUTHOR_DATE": self.stamp(at)})
         sha = self.git("rev-parse", "HEAD")
         cid = len(self.commits)
         self.commits.append(dict(id=cid, parents=[h, o], ctime=ct, atime=at, sha=sha))
@@ -157,6 +157,55 @@ class Repo:
         else:
             self.head = ("detached", cid)
         self.ops.append("merge %s -> c%d" % (other, cid))
+        return True
+
+    def octopus(self, others):
+        """merge several branches into HEAD at once; the parents are read back from git (it drops heads that are ancestors of other heads)"""
+        h = self.head_cid()
+        before = self.git("rev-parse", "HEAD")
+        ct, at = self.rand_time(), self.rand_time()
+        e = dict(self.env)
+        e.update({"GIT_COMMITTER_DATE": self.stamp(ct), "GIT_AUTHOR_DATE": self.stamp(at)})
+        r = subprocess.run([core.REAL_GIT, "merge", "-q", "--no-ff", "-m", "octopus %s" % "+".join(others)] + ["refs/heads/" + o for o in others],
+                           cwd=self.path, env=e, capture_output=True, text=True)
+        sha = self.git("rev-parse", "HEAD")
+        if r.returncode != 0 or sha == before:
+            self.git("merge", "--abort", check=False)
+            self.git("reset", "-q", "--hard", before, "--")
+            return False
+        by_sha = {c["sha"]: c["id"] for c in self.commits}
+        if sha in by_sha:
+            cid = by_sha[sha]
+        else:
+            parents = [by_sha[x] for x in self.git("rev-list", "--parents", "-n", "1", "HEAD", "--").split()[1:]]
+            cid = len(self.commits)
+            self.commits.append(dict(id=cid, parents=parents, ctime=ct, atime=at, sha=sha))
+        if self.head[0] == "branch":
+            self.branches[self.head[1]] = cid
+        else:
+            self.head = ("detached", cid)
+        self.ops.append("octopus merge %s -> c%d (parents %s)" % ("+".join(others), cid, self.commits[cid]["parents"]))
+        return len(self.commits[cid]["parents"]) > 2
+
+    def orphan(self, name):
+        """a second root: `git switch --orphan`, same base files as the first root (so that the lines merge cleanly later)"""
+        if name in self.branches:
+            return False
+        self.git("switch", "-q", "--orphan", name)
+        with open(os.path.join(self.path, ".gitignore"), "w") as f:
+            f.write("*.ign\nignored_dir/\n")
+        with open(os.path.join(self.path, "tracked.txt"), "w") as f:
+            f.write("base\n")
+        self.git("add", ".gitignore", "tracked.txt")
+        ct, at = self.rand_time(), self.rand_time()
+        self.git("commit", "-q", "-m", "root of %s" % name, env={"GIT_COMMITTER_DATE": self.stamp(ct), "GIT_AUTHOR_DATE": self.stamp(at)})
+        if self.git("branch", "--show-current") != name:
+            raise GitError("orphan branch %s not created" % name)
+        cid = len(self.commits)
+        self.commits.append(dict(id=cid, parents=[], ctime=ct, atime=at, sha=self.git("rev-parse", "HEAD")))
+        self.branches[name] = cid
+        self.head = ("branch", name)
+        self.ops.append("orphan root on new branch %s -> c%d" % (name, cid))
         return True
 
     def tag(self, name, cid=None, annotated=False, nested=False):
@@ -349,6 +398,25 @@ def build_random(path, rng, nops):
     (the caller observes). Returns the Repo."""
     r = Repo(path, rng)
     yield r
+    if rng.random() < 0.12:
+        # an octopus merge early in the history (random operations rarely line up two or three independent heads): side lines that each
+        # carry a commit, some of them tagged, merged into main at once
+        try:
+            names = ["oct-%d" % i for i in range(rng.choice([2, 2, 3]))]
+            for nm in names:
+                r.branch(nm, 0)
+                r.checkout(nm)
+                r.commit()
+                if rng.random() < 0.6:
+                    r.tag(rand_tag(rng), None, annotated=rng.random() < 0.4)
+                yield r
+            r.checkout("main")
+            if rng.random() < 0.7:
+                r.commit()
+            r.octopus(names)
+        except GitError as e:
+            raise core.Inconclusive("generator (octopus prelude): %s" % e)
+        yield r
     for _ in range(nops):
         k = rng.random()
         try:
@@ -380,7 +448,21 @@ def build_random(path, rng, nops):
                     r.checkout(rng.choice(sorted(r.branches)))
             elif k < 0.66:
                 others = [b for b in sorted(r.branches) if not (r.head[0] == "branch" and b == r.head[1])]
-                if not others or not r.merge(rng.choice(others)):
+                kk = rng.random()
+                if kk < 0.2 and len(others) >= 2:
+                    # heads that bring something new and are not ancestors of one another (git drops the others from the parent list)
+                    h = r.head_cid()
+                    cands = []
+                    for b in rng.sample(others, len(others)):
+                        c = r.branches[b]
+                        if c not in r.anc(h) and all(c not in r.anc(r.branches[x]) and r.branches[x] not in r.anc(c) for x in cands):
+                            cands.append(b)
+                    if len(cands) < 2 or not r.octopus(cands[:rng.choice([2, 2, 3])]):
+                        continue
+                elif kk < 0.26:
+                    if not r.orphan("orphan-%d" % len(r.commits)):
+                        continue
+                elif not others or not r.merge(rng.choice(others)):
                     continue
             elif k < 0.92:
                 cid = None
